@@ -454,12 +454,91 @@ def norm(line):
     return line.strip()
 
 
-def gen_clean_body(r, token):
-    n = r.randrange(1, 6)
-    body = [r.choice(CLEAN_VOCAB) for _ in range(n)]
-    body.insert(r.randrange(0, len(body) + 1), "tok_%s();" % token)
+SHAPES = ("empty", "one-line", "multi", "blank-inside", "blank-at-end", "blank-only")
+SHAPE_STATS = {}      # "<route>:<shape>" -> count, printed into the evidence notes
+FORM_STATS = {}       # "<yaml form>:<shape>" -> count
+
+
+def gen_body(r, route, token=None, shapes=SHAPES):
+    """A Clean body of a random shape.  `token` (a unique line) is inserted into non-empty shapes when given."""
+    shape = r.choice(shapes)
+    pick = lambda: r.choice([l for l in CLEAN_VOCAB if l.strip()])  # noqa
+    if shape == "empty":
+        body = []
+    elif shape == "one-line":
+        body = [pick()]
+    elif shape == "multi":
+        body = [r.choice(CLEAN_VOCAB) for _ in range(r.randrange(2, 6))]
+    elif shape == "blank-inside":
+        body = [pick(), ""] + ([""] if r.random() < 0.3 else []) + [pick()]
+    elif shape == "blank-at-end":
+        body = [pick() for _ in range(r.randrange(1, 3))] + [""] * r.randrange(1, 3)
+    else:
+        body = [""]
+    if token is not None and shape not in ("empty", "blank-only"):
+        if shape == "one-line":
+            body = ["tok_%s();" % token]
+        else:
+            body[0] = "tok_%s();" % token
     assert all(is_clean(l) for l in body)
+    key = "%s:%s" % (route, shape)
+    SHAPE_STATS[key] = SHAPE_STATS.get(key, 0) + 1
     return body
+
+
+def gen_clean_body(r, token, route="other"):
+    """non-empty body carrying a unique token line"""
+    return gen_body(r, route, token, shapes=("one-line", "multi", "blank-inside", "blank-at-end"))
+
+
+# ---- YAML scalar forms of a declaration-level splicer value
+class _Lit(str):
+    pass
+
+
+class _Fold(str):
+    pass
+
+
+class _DQ(str):
+    pass
+
+
+class _SQ(str):
+    pass
+
+
+def _install_yaml_styles():
+    import yaml
+    for cls, style in ((_Lit, "|"), (_Fold, ">"), (_DQ, '"'), (_SQ, "'")):
+        yaml.add_representer(cls, (lambda st: lambda dumper, data: dumper.represent_scalar("tag:yaml.org,2002:str", str(data), style=st))(style),
+                             Dumper=yaml.SafeDumper)
+
+
+def scalar_semantics(value):
+    """What a string value of `splicer:` means (docs of ast.listify): its lines; a final newline does not add a blank line."""
+    lines = value.split("\n")
+    if value.endswith("\n"):
+        lines.pop()
+    return lines
+
+
+def decl_value(r, body):
+    """Render a non-empty body as a `splicer:` value in a random YAML form.  -> (yaml value, form name, expected lines)"""
+    forms = ["list", "list-null", "literal-clip |", "literal-strip |-", "folded >", "double-quoted", "single-quoted", "plain"]
+    form = r.choice(forms)
+    if form == "list" or (form == "list-null" and "" not in body):
+        return list(body), "list", list(body)
+    if form == "list-null":
+        return [None if l == "" else l for l in body], form, list(body)     # '-' with nothing after it
+    text = "\n".join(body)
+    if form in ("literal-clip |", "folded >"):
+        value = text + "\n"
+    else:
+        value = text
+    cls = {"literal-clip |": _Lit, "literal-strip |-": _Lit, "folded >": _Fold, "double-quoted": _DQ,
+           "single-quoted": _SQ, "plain": str}[form]
+    return cls(value), form, scalar_semantics(value)
 
 
 def is_clean(l):
@@ -527,8 +606,12 @@ class Lib:
         for sub in ("cf", "py", "lua", "log"):
             os.mkdir(os.path.join(wd, sub))
         ypath = os.path.join(wd, self.name.split("-")[0] + ".yaml")
+        _install_yaml_styles()
         with open(ypath, "w") as fp:
             yaml.safe_dump(doc, fp, default_flow_style=False, sort_keys=False, width=10000)
+        with open(ypath) as fp:
+            if yaml.safe_load(fp) != doc:
+                raise RuntimeError("YAML round trip of the generated input failed")
         cmd = ["--outdir-c-fortran", os.path.join(wd, "cf"), "--outdir-python", os.path.join(wd, "py"),
                "--outdir-lua", os.path.join(wd, "lua"), "--path", wd + ":" + self.tmp + ":" + self.reg,
                "--option", "debug_testsuite=true"] + self.extra
@@ -658,13 +741,12 @@ def oracle_e2e(ctx, libname, tmp):
     ctx.note("e2e_%s_blocks" % libname, {l: len(v) for l, v in usable.items()})
     tok = [0]
 
-    def bodies_for(frac):
+    def bodies_for(frac, route):
         sup = {}
         for lang, ns in usable.items():
             for n in ns:
                 if r.random() < frac:
-                    tok[0] += 1
-                    sup.setdefault(lang, {})[n] = gen_clean_body(r, "%s%d" % (lang, tok[0]))
+                    sup.setdefault(lang, {})[n] = gen_body(r, route)
         return sup
 
     def files_for(sup, tag):
@@ -673,7 +755,7 @@ def oracle_e2e(ctx, libname, tmp):
 
     rp = {"library": libname, "seed": common.seed()}
     # --- way 1: splicer files on the command line
-    sup = bodies_for(0.5)
+    sup = bodies_for(0.5, "cmdline-file")
     paths = files_for(sup, "cmd")
     rc, out, files1, _ = lib.run(base_doc, cmd_files=list(paths.values()))
     if rc != 0:
@@ -681,7 +763,7 @@ def oracle_e2e(ctx, libname, tmp):
     else:
         check_supplied(ctx, lib, "cmdline-file", files1, base_h, sup, dict(rp, supplied=sup))
     # --- way 2: splicer files named in the YAML file
-    sup2 = bodies_for(0.5)
+    sup2 = bodies_for(0.5, "yaml-file")
     paths2 = files_for(sup2, "yaml")
     doc = copy.deepcopy(base_doc)
     doc["splicer"] = {lang: [os.path.basename(p)] for lang, p in paths2.items()}
@@ -691,7 +773,7 @@ def oracle_e2e(ctx, libname, tmp):
     else:
         check_supplied(ctx, lib, "yaml-file", files2, base_h, sup2, dict(rp, supplied=sup2))
     # --- way 3: splicer_code
-    sup3 = bodies_for(0.5)
+    sup3 = bodies_for(0.5, "splicer_code")
     doc = copy.deepcopy(base_doc)
     doc["splicer_code"] = {lang: nest(sorted(b.items())) for lang, b in sup3.items()}
     rc, out, files3, _ = lib.run(doc)
@@ -703,10 +785,9 @@ def oracle_e2e(ctx, libname, tmp):
     supa, supb, supc = {}, {}, {}
     for lang, ns in usable.items():
         for n in ns:
-            tok[0] += 1
             which = r.choice([supa, supb, supc, None])
             if which is not None:
-                which.setdefault(lang, {})[n] = gen_clean_body(r, "%s%d" % (lang, tok[0]))
+                which.setdefault(lang, {})[n] = gen_body(r, "combined")
     pa, pb = files_for(supa, "mixa"), files_for(supb, "mixb")
     doc = copy.deepcopy(base_doc)
     doc["splicer"] = {lang: [os.path.basename(p)] for lang, p in pb.items()}
@@ -741,8 +822,8 @@ def oracle_e2e(ctx, libname, tmp):
                 expected[lang] = both[lang]
         check_supplied(ctx, lib, "files+splicer_code", files5, base_h, expected, dict(rp, supplied=expected))
     # --- conflict: the same name from a file and from splicer_code -> splicer_code wins, completely
-    supd = bodies_for(0.3)
-    supe = {lang: {n: gen_clean_body(r, "conf%d" % k) for k, n in enumerate(b)} for lang, b in supd.items()}
+    supd = bodies_for(0.3, "conflict-file")
+    supe = {lang: {n: gen_body(r, "conflict-splicer_code") for n in b} for lang, b in supd.items()}
     pd = files_for(supd, "conf")
     doc = copy.deepcopy(base_doc)
     doc["splicer_code"] = {lang: nest(sorted(b.items())) for lang, b in supe.items()}
@@ -756,15 +837,13 @@ def oracle_e2e(ctx, libname, tmp):
     decls = func_decls(doc)
     r.shuffle(decls)
     forced = {}
-    for k, d in enumerate(decls[:6]):
+    ndecl = 8
+    for k, d in enumerate(decls[:ndecl]):
         sp = {}
         for key in ("c", "f", "py"):
-            body = gen_clean_body(r, "decl%d%s" % (k, key))
+            body = gen_clean_body(r, "decl%d%s" % (k, key), "declaration-id")
             forced["tok_decl%d%s();" % (k, key)] = body
-            if r.random() < 0.3 and all(body) and not any(b != b.strip() or b[:1] in "#!&*%?~-'\"{[" or ": " in b for b in body):
-                sp[key] = "\n".join(body) + "\n"
-            else:
-                sp[key] = body
+            sp[key] = body
         d["splicer"] = sp
     rc, out, files7, _ = lib.run(doc)
     found = {}
@@ -788,7 +867,7 @@ def oracle_e2e(ctx, libname, tmp):
         for t, lst in found.items():
             for lang, name in lst:
                 tok[0] += 1
-                conflict.setdefault(lang, {})[name] = gen_clean_body(r, "loser%d" % tok[0])
+                conflict.setdefault(lang, {})[name] = gen_clean_body(r, "loser%d" % tok[0], "declaration-loser")
         if conflict:
             langs = sorted(conflict)
             pf = files_for({l: conflict[l] for l in langs[::2]}, "force")
@@ -812,6 +891,52 @@ def oracle_e2e(ctx, libname, tmp):
                                     ctx.fail("precedence:%s:declaration-splicer-mangled" % libname,
                                              "block %s in %s: %r != %r" % (name, rel, body, want), dict(rp, name=name, file=rel))
     ctx.note("e2e_%s_declaration_blocks" % libname, sum(len(v) for v in found.values()))
+    # --- declaration-level splicers of every body shape in every YAML form; blocks identified by the token run above
+    if found:
+        where = {}      # token -> [(rel, index in file)]
+        for rel, text in files7.items():
+            for idx, (name, body) in enumerate(parse_blocks(text)):
+                for t in forced:
+                    if any(t in l for l in body):
+                        where.setdefault(t, []).append((rel, idx, name))
+        docb = copy.deepcopy(base_doc)
+        declsb = func_decls(docb)
+        # same declarations as in the token run (same shuffle: match by decl text)
+        chosen = [d["decl"] for d in decls[:ndecl]]
+        expect = {}
+        for k, text in enumerate(chosen):
+            d = [x for x in declsb if x["decl"] == text][0]
+            sp = {}
+            for key in ("c", "f", "py"):
+                body = gen_body(r, "declaration")
+                if body:
+                    val, form, want = decl_value(r, body)
+                else:
+                    val, form, want = [], "list", []
+                shape = "empty" if not body else ("one-line" if len(body) == 1 else "multi-line")
+                fk = "%s:%s" % (form, shape)
+                FORM_STATS[fk] = FORM_STATS.get(fk, 0) + 1
+                sp[key] = val
+                expect["tok_decl%d%s();" % (k, key)] = (want, form)
+            d["splicer"] = sp
+        rc, out, filesb, _ = lib.run(docb)
+        if rc != 0:
+            ctx.fail("e2e:%s:declaration-forms:run-failed" % libname, "regeneration failed: " + out[-400:], rp)
+        else:
+            for t, places in where.items():
+                want, form = expect[t]
+                for rel, idx, name in places:
+                    blocks = parse_blocks(filesb.get(rel, ""))
+                    ctx.count(1)
+                    if idx >= len(blocks) or blocks[idx][0] != name:
+                        ctx.fail("e2e:%s:declaration-forms:block-vanished" % libname, "block %s in %s vanished" % (name, rel),
+                                 dict(rp, name=name, file=rel))
+                    elif [norm(x) for x in blocks[idx][1]] != [norm(x) for x in want]:
+                        ctx.fail("e2e:%s:declaration-forms:user-body-not-carried" % libname,
+                                 "declaration-level splicer (YAML form %s) for block %s in %s not carried: %r != %r"
+                                 % (form, name, rel, blocks[idx][1], want), dict(rp, name=name, file=rel, form=form, want=want))
+                    else:
+                        ctx.nontrivial("%s:declform:%s:%s:%s" % (libname, form, rel, name))
     # --- feed generated files back as splicer files: same code
     if rc == 0 and files1:
         feed, seen, fed_files = [], set(), set()
@@ -867,7 +992,7 @@ def oracle_carriage(ctx, tmp):
     """Unit level, real code only: file -> get_splicers -> _create_splicer -> write_lines."""
     from shroud import splicer
     r = common.rng("c12-carriage")
-    cases = [("clean", gen_clean_body(r, str(k))) for k in range(300 if ctx.tier == "thorough" else 80)]
+    cases = [("clean", gen_body(r, "unit-file")) for k in range(300 if ctx.tier == "thorough" else 120)]
     cases += [("trailing-plus", ["i = i +", "next();"]), ("interior-tab", ["call foo(a,\tb)"]), ("interior-ff", ["a\fb"])]
     for kind, body in cases:
         fname = os.path.join(tmp, "carriage.c")
@@ -939,6 +1064,8 @@ def static_scan(ctx):
 
 def run(ctx):
     thorough = ctx.tier == "thorough"
+    SHAPE_STATS.clear()
+    FORM_STATS.clear()
     ok = ctx.lean(MODULES, THEOREMS, extra_targets=("drv_splicer",))
     ctx.cov["trusted_base"] = [
         "Lean 4.33.0 kernel; axioms within {propext, Classical.choice, Quot.sound}",
@@ -967,6 +1094,8 @@ def run(ctx):
         libs = ["tutorial", "classes", "strings"] if not thorough else [c[0] for c in shroudrun.CORPUS]
         for name in libs:
             oracle_e2e(ctx, name, tmp)
+        ctx.note("body_shapes_by_route", dict(sorted(SHAPE_STATS.items())))
+        ctx.note("declaration_yaml_forms", dict(sorted(FORM_STATS.items())))
     finally:
         common.rmtree(tmp)
 
